@@ -1,71 +1,325 @@
-(* C17 -- every message emitted by a sequence of fixed-shape ops conforms to the command
-   reference (induction over op sequences; the invariant covers the messages waiting in open
-   bind() blocks). *)
+(* C17 -- every message emitted by ANY sequence of well-formed ops conforms to the command
+   reference and mentions only ids that are in the ledger (ids handed out by the allocators or
+   written by the caller, root node 0, default group 1, the placeholder -1).
+   One invariant, one induction over op sequences; the invariant covers the messages waiting in
+   open bind() blocks. *)
 From Coq Require Import ZArith QArith List String Bool Lia.
 Import ListNotations.
 Require Import SC3.model.ProtoGrammar SC3.model.Proto SC3.gen.Gen_proto.
-Require Import SC3.proofs.C17_bind SC3.proofs.C17_life.
+Require Import SC3.proofs.C17_gram SC3.proofs.C17_args SC3.proofs.C17_bind SC3.proofs.C17_life.
 Open Scope string_scope.
 Open Scope Z_scope.
 Open Scope list_scope.
 
-Definition is_pint (v : pval) : bool := match v with PInt _ => true | _ => false end.
-Definition ion (v : pval) : bool := match v with PInt _ | PNone => true | _ => false end.
-Definition node_ok (n : option nodeobj) : bool := match n with Some x => is_pint (n_id x) | None => true end.
-Definition buf_ok (b : option bufobj) : bool :=
-  match b with Some x => ion (b_num x) && ion (b_frames x) && ion (b_chans x) | None => true end.
-Definition bus_ok (u : option busobj) : bool :=
-  match u with Some x => ion (u_index x) && ion (u_chans x) | None => true end.
+(* ------------------------------------------------------------------------------------ *)
+(* ledger                                                                                *)
 
-Definition good_pmsg (m : pmsg) : bool :=
-  match wire_msg m with Some w => conforms w | None => false end.
+Definition ledger := list (idk * Z).
 
-Definition inv_objs (s : st) : bool :=
-  forallb node_ok (nodes s) && forallb buf_ok (bufs s) && forallb bus_ok (buses s).
-Definition inv_b (s : st) : bool := inv_objs s && forallb (forallb good_pmsg) (stack s).
-Definition inv (s : st) : Prop := inv_b s = true.
+(* constants: -1 (server generated node id / unmap), root node 0, the client's default group *)
+Definition known (L : ledger) (k : idk) (i : Z) : Prop :=
+  i = -1 \/ (k = KNode /\ (i = 0 \/ i = default_group)) \/ In (k, i) L.
 
-Definition no_compl (c : compl) : bool := match c with CNone => true | _ => false end.
-Definition is_num (v : pval) : bool := match v with PInt _ | PFlt _ => true | _ => false end.
+Lemma known_mono : forall L L' k i, incl L L' -> known L k i -> known L' k i.
+Proof. intros L L' k i H [A|[A|A]]; [left | right; left | right; right]; auto. Qed.
+Lemma known_r : forall X L k i, known L k i -> known (X ++ L) k i.
+Proof. intros X L k i. apply known_mono. apply incl_appr, incl_refl. Qed.
+Lemma known_l : forall X L k i, In (k, i) X -> known (X ++ L) k i.
+Proof. intros X L k i H. right. right. apply in_or_app. left. exact H. Qed.
 
-(* a string that the encoder does not turn into an array bracket *)
-Definition plain (x : string) : bool := negb (String.eqb x "[") && negb (String.eqb x "]").
+Definition GoodW (L : ledger) (w : msg) : Prop :=
+  conforms w = true /\ forall k i, In (k, i) (msg_ids w) -> known L k i.
+Definition Good (L : ledger) (m : pmsg) : Prop := exists w, wire_msg m = Some w /\ GoodW L w.
 
-Definition fixed_shape (o : op) : bool :=
-  match o with
-  | OSynth _ _ def PNone _ _ => plain def
-  | OGroup _ _ _ _ => true
-  | OBasicNew _ => true
-  | ONodeRelease _ _ => true
-  | ONodeRun _ (PBool _) => true
-  | ONodeFree _ _ | ONodeTrace _ | ONodeQuery _ => true
-  | ONodeMoveBefore _ _ | ONodeMoveAfter _ _ | ONodeMoveToHead _ _ | ONodeMoveToTail _ _ => true
-  | OGroupFreeAll _ | OGroupDeepFree _ | OGroupDumpTree _ _ => true
-  | OFreeDefaultGroup | OSendDefaultGroups | ODumpOsc _ => true
-  | OBufNew _ fr ch _ c _ => ion fr && ion ch && no_compl c
-  | OBufAlloc _ c => no_compl c
-  | OBufSimple cmd _ c => (String.eqb cmd "/b_zero" || String.eqb cmd "/b_close") && no_compl c
-  | OBufFree _ c => no_compl c
-  | OBufFreeAll => true
-  | OBufQuery _ _ | OBufGet _ _ | OBufGetn _ _ _ => true
-  | OBufCue _ path _ c => plain path && no_compl c
-  | OBufWrite _ path header sample _ _ _ c => plain path && plain header && plain sample && no_compl c
-  | OBufRead _ path _ _ _ _ None => plain path
-  | OBusNew _ _ _ _ | OBusFree _ | OBusClear _ | OBusGet _ | OBusGetn _ _ => true
-  | OBusFill _ v (PInt _) => is_num v
-  | OBindEnter | OBindExit | OBindRaise _ => true
-  | _ => false
-  end.
-
-(* ---- invariant plumbing ---- *)
-
-Lemma forallb_nth : forall {A} (f : A -> bool) l i x, forallb f l = true -> nth_error l i = Some x -> f x = true.
+Lemma good_mono : forall L L' m, incl L L' -> Good L m -> Good L' m.
 Proof.
-  intros A f l. induction l as [|y t IH]; intros i x H Hn; destruct i; simpl in *; try discriminate.
-  - inversion Hn; subst. apply andb_true_iff in H. tauto.
-  - apply andb_true_iff in H. eapply IH; [tauto | exact Hn].
+  intros L L' m H [w [W [C K]]]. exists w. split; [exact W|]. split; [exact C|].
+  intros k i Hi. eapply known_mono; [exact H | apply K; exact Hi].
 Qed.
 
+(* ---- building good messages ---- *)
+
+Lemma good_build : forall L a ptoks wl sg ids,
+  wire_args ptoks = Some wl -> sig_of a = Some sg -> shape_ids sg wl = Some ids ->
+  forallb arg_conf wl = true ->
+  (forall k i, In (k, i) ids -> known L k i) ->
+  (forall k i, In (k, i) (flat_map arg_ids wl) -> known L k i) ->
+  Good L (PStr a :: ptoks).
+Proof.
+  intros L a ptoks wl sg ids W S H C K1 K2. exists (a, wl). rewrite wire_msg_eq, W. split; [reflexivity|].
+  split.
+  - unfold conforms. cbn [fst snd]. rewrite arg_conf_msg. unfold shape_ok. rewrite S, H, C. reflexivity.
+  - intros k i Hi. unfold msg_ids in Hi. cbn [fst snd] in Hi. rewrite arg_ids_msg in Hi.
+    apply in_app_or in Hi. destruct Hi as [Hi|Hi]; [|apply K2; exact Hi].
+    apply K1. unfold own_ids in Hi. rewrite S, H in Hi. exact Hi.
+Qed.
+
+(* no nested message *)
+Lemma good_flat : forall L a ptoks wl sg ids,
+  wire_args ptoks = Some wl -> sig_of a = Some sg -> shape_ids sg wl = Some ids ->
+  forallb not_msg wl = true ->
+  (forall k i, In (k, i) ids -> known L k i) ->
+  Good L (PStr a :: ptoks).
+Proof.
+  intros L a ptoks wl sg ids W S H N K. eapply good_build; eauto.
+  - apply flat_conf. exact N.
+  - rewrite (flat_ids wl N). intros k i [].
+Qed.
+
+(* fixed fields (plain tokens) then a completion message *)
+Lemma good_compl_gen : forall L a (F : list pval) xp x sg iF,
+  sig_of a = Some sg -> s_rep sg = RNone -> s_compl sg = true ->
+  forallb w_tok F = true ->
+  (forall y, eat_seq (s_fixed sg) (map wtok F ++ [y]) = Some (iF, [y])) ->
+  wire_arg xp = Some [x] -> compl_ok x = true -> arg_conf x = true ->
+  (forall k i, In (k, i) iF -> known L k i) -> (forall k i, In (k, i) (arg_ids x) -> known L k i) ->
+  Good L (PStr a :: F ++ [xp]).
+Proof.
+  intros L a F xp x sg iF S R C T E W Ok Cf K1 K2.
+  eapply (good_build L a (F ++ [xp]) (map wtok F ++ [x]) sg (iF ++ [])).
+  - apply wire_args_app; [apply wire_toks; exact T|]. cbn [wire_args]. rewrite W. reflexivity.
+  - exact S.
+  - apply shape_compl_none; auto.
+  - rewrite forallb_app. rewrite (flat_conf _ (toks_not_msg F)). cbn [forallb]. rewrite Cf. reflexivity.
+  - rewrite app_nil_r. exact K1.
+  - rewrite flat_map_app, (flat_ids _ (toks_not_msg F)). cbn [flat_map app]. rewrite app_nil_r. exact K2.
+Qed.
+
+(* fixed fields, a list of channel numbers, a completion message *)
+Lemma good_compl_ints : forall L a (F : list pval) ch xp x sg iF,
+  sig_of a = Some sg -> s_rep sg = RGroup [TInt] false -> s_compl sg = true ->
+  forallb w_tok F = true ->
+  (forall R, eat_seq (s_fixed sg) (map wtok F ++ R) = Some (iF, R)) ->
+  wire_arg xp = Some [x] -> compl_ok x = true -> arg_conf x = true ->
+  (forall k i, In (k, i) iF -> known L k i) -> (forall k i, In (k, i) (arg_ids x) -> known L k i) ->
+  Good L (PStr a :: F ++ zs ch ++ [xp]).
+Proof.
+  intros L a F ch xp x sg iF S R C T E W Ok Cf K1 K2.
+  eapply (good_build L a (F ++ zs ch ++ [xp]) (map wtok F ++ map AInt ch ++ [x]) sg (iF ++ [])).
+  - apply wire_args_app; [apply wire_toks; exact T|]. apply wire_args_app; [apply wire_zs|].
+    cbn [wire_args]. rewrite W. reflexivity.
+  - exact S.
+  - apply shape_compl_ints; auto.
+  - rewrite !forallb_app. rewrite (flat_conf _ (toks_not_msg F)). cbn [forallb]. rewrite Cf.
+    assert (Z1 : forallb arg_conf (map AInt ch) = true) by (induction ch; [reflexivity | exact IHch]).
+    rewrite Z1. reflexivity.
+  - rewrite app_nil_r. exact K1.
+  - rewrite !flat_map_app, (flat_ids _ (toks_not_msg F)).
+    assert (Z1 : flat_map arg_ids (map AInt ch) = []) by (induction ch; [reflexivity | exact IHch]).
+    rewrite Z1. cbn [flat_map app]. rewrite app_nil_r. exact K2.
+Qed.
+
+(* ---- completion messages supplied by the caller ---- *)
+
+Definition compl_wire (c : compl) (num : pval) : option arg :=
+  match wire_arg (compl_val c num) with Some [x] => Some x | _ => None end.
+(* absent, or a message that itself conforms *)
+Definition compl_good (c : compl) (num : pval) : bool :=
+  match compl_wire c num with Some x => compl_ok x && arg_conf x | None => false end.
+Definition compl_ids (c : compl) (num : pval) : ledger :=
+  match compl_wire c num with Some x => arg_ids x | None => [] end.
+
+Lemma compl_good_spec : forall c num, compl_good c num = true ->
+  exists x, wire_arg (compl_val c num) = Some [x] /\ compl_ok x = true /\ arg_conf x = true /\
+            arg_ids x = compl_ids c num.
+Proof.
+  intros c num H. unfold compl_good, compl_ids, compl_wire in *.
+  destruct (wire_arg (compl_val c num)) as [[|x [|y t]]|]; try discriminate H.
+  apply andb_true_iff in H. destruct H as [A B]. exists x. auto.
+Qed.
+
+(* ------------------------------------------------------------------------------------ *)
+(* what an op adds to the ledger: ids returned by the allocators (oracle fields) and ids the
+   caller wrote himself (int targets, bufnum= / index=, bus numbers, ids inside the completion
+   or raw messages he supplied)                                                           *)
+
+Definition tg_ids (t : target) : ledger := match t with TgInt z => [(KNode, z)] | _ => [] end.
+Definition range_ids (k : idk) (a : Z) (n : nat) : ledger := map (fun i => (k, i)) (zrange a n).
+Definition optrange (k : idk) (o : option Z) (n : nat) : ledger :=
+  match o with Some a => range_ids k a n | None => [] end.
+Fixpoint lit_bus (l : list pval) : ledger :=
+  match l with
+  | [] => []
+  | PInt z :: t => (KBus, z) :: lit_bus t
+  | _ :: t => lit_bus t
+  end.
+Definition raw_ids (m : pmsg) : ledger := match wire_msg m with Some w => msg_ids w | None => [] end.
+Definition new_compl_ids (c : compl) (bufnum addr : option Z) : ledger :=
+  match new_bufnum bufnum addr with Some num => compl_ids c (PInt num) | None => [] end.
+
+Definition op_ids (s : st) (o : op) : ledger :=
+  match o with
+  | OSynth _ nid _ _ tg _ => (KNode, nid) :: tg_ids tg
+  | OGroup _ nid tg _ => (KNode, nid) :: tg_ids tg
+  | OBasicNew id => [(KNode, id)]
+  | OReorder _ tg _ => tg_ids tg
+  | ONodeMap _ _ args => lit_bus args
+  | ONodeMapn _ _ args => lit_bus args
+  | ODefSend _ c => compl_ids c PNone
+  | ODefLoad _ _ c => compl_ids c PNone
+  | OBufNew addr _ _ bufnum c _ => optrange KBuf addr 1 ++ optrange KBuf bufnum 1 ++ new_compl_ids c bufnum addr
+  | OBufConsecutive addr n _ _ bufnum c =>
+    optrange KBuf addr n ++ optrange KBuf bufnum n ++
+    match new_bufnum bufnum addr with
+    | Some base => flat_map (fun i => compl_ids c (PInt i)) (zrange base n)
+    | None => []
+    end
+  | OBufNewRead addr _ _ _ _ bufnum => optrange KBuf addr 1 ++ optrange KBuf bufnum 1
+  | OBufNewCue addr _ _ _ _ bufnum c => optrange KBuf addr 1 ++ optrange KBuf bufnum 1 ++ new_compl_ids c bufnum addr
+  | OBufAlloc b c => compl_ids c (bufnum_of s b)
+  | OBufAllocRead b _ _ _ _ c => compl_ids c (bufnum_of s b)
+  | OBufCue b _ _ c => compl_ids c (bufnum_of s b)
+  | OBufWrite b _ _ _ _ _ _ c => compl_ids c (bufnum_of s b)
+  | OBufSimple _ b c => compl_ids c (bufnum_of s b)
+  | OBufFree b c => compl_ids c (bufnum_of s b)
+  | OBusNew _ addr chans index => optrange KBus addr (Z.to_nat chans) ++ optrange KBus index (Z.to_nat chans)
+  | ORaw m => raw_ids m
+  | _ => []
+  end.
+
+(* ------------------------------------------------------------------------------------ *)
+(* invariant                                                                             *)
+
+Record InvO (L : ledger) (s : st) : Prop := {
+  io_objs : inv_objs s = true;
+  io_node : forall n x z, get_node s n = Some x -> n_id x = PInt z -> known L KNode z;
+  io_buf : forall b x a, get_buf s b = Some x -> b_num x = PInt a -> known L KBuf a;
+  io_bus : forall u x a, get_bus s u = Some x -> u_index x = PInt a ->
+           exists c, u_chans x = PInt c /\ 1 <= c /\ forall i, a <= i < a + c -> known L KBus i;
+  io_blk : forall blk i, In blk (bblocks s) -> In i (zrange (fst blk) (Z.to_nat (snd blk))) -> known L KBuf i
+}.
+
+Definition Inv (L : ledger) (s : st) : Prop := InvO L s /\ Forall (Forall (Good L)) (stack s).
+
+Lemma invO_mono : forall L L' s, incl L L' -> InvO L s -> InvO L' s.
+Proof.
+  intros L L' s H [A B C D E]. constructor; auto.
+  - intros n x z G Ez. eapply known_mono; eauto.
+  - intros b x a G Ea. eapply known_mono; eauto.
+  - intros u x a G Ea. destruct (D u x a G Ea) as [c [Ec [Hc K]]]. exists c. repeat split; auto.
+    intros i Hi. eapply known_mono; eauto.
+  - intros blk i Hb Hi. eapply known_mono; eauto.
+Qed.
+
+Lemma nth_app_one : forall {A} (l : list A) (n : A) i x,
+  nth_error (l ++ [n]) i = Some x -> nth_error l i = Some x \/ n = x.
+Proof.
+  intros A l n i x H. destruct (lt_dec i (List.length l)) as [Hl|Hl].
+  - left. rewrite nth_error_app1 in H by exact Hl. exact H.
+  - right. rewrite nth_error_app2 in H by lia. destruct (i - List.length l)%nat as [|k]; simpl in H.
+    + inversion H. reflexivity.
+    + destruct k; discriminate H.
+Qed.
+
+Lemma get_node_add : forall s n i x, get_node (add_node s n) i = Some x -> get_node s i = Some x \/ n = Some x.
+Proof.
+  intros s n i x H. unfold get_node, add_node in *. cbn [nodes] in H.
+  destruct (nth_error (nodes s ++ [n]) i) as [[y|]|] eqn:E; try discriminate H. inversion H; subst.
+  destruct (nth_app_one _ _ _ _ E) as [K|K]; [left; rewrite K; reflexivity | right; exact K].
+Qed.
+Lemma get_buf_add : forall s n i x, get_buf (add_buf s n) i = Some x -> get_buf s i = Some x \/ n = Some x.
+Proof.
+  intros s n i x H. unfold get_buf, add_buf in *. cbn [bufs] in H.
+  destruct (nth_error (bufs s ++ [n]) i) as [[y|]|] eqn:E; try discriminate H. inversion H; subst.
+  destruct (nth_app_one _ _ _ _ E) as [K|K]; [left; rewrite K; reflexivity | right; exact K].
+Qed.
+Lemma get_bus_add : forall s n i x, get_bus (add_bus s n) i = Some x -> get_bus s i = Some x \/ n = Some x.
+Proof.
+  intros s n i x H. unfold get_bus, add_bus in *. cbn [buses] in H.
+  destruct (nth_error (buses s ++ [n]) i) as [[y|]|] eqn:E; try discriminate H. inversion H; subst.
+  destruct (nth_app_one _ _ _ _ E) as [K|K]; [left; rewrite K; reflexivity | right; exact K].
+Qed.
+
+Lemma inv_objs_add_node : forall s n, inv_objs s = true -> node_ok n = true -> inv_objs (add_node s n) = true.
+Proof.
+  intros s n H Hn. apply inv_objs_split in H. apply inv_objs_split. cbn [add_node nodes bufs buses].
+  destruct H as [A [B C]]. split; [rewrite forallb_app, A; cbn [forallb]; rewrite Hn; reflexivity | split; assumption].
+Qed.
+Lemma inv_objs_add_buf : forall s n, inv_objs s = true -> buf_ok n = true -> inv_objs (add_buf s n) = true.
+Proof.
+  intros s n H Hn. apply inv_objs_split in H. apply inv_objs_split. cbn [add_buf nodes bufs buses].
+  destruct H as [A [B C]]. split; [assumption | split; [rewrite forallb_app, B; cbn [forallb]; rewrite Hn; reflexivity | assumption]].
+Qed.
+Lemma inv_objs_add_bus : forall s n, inv_objs s = true -> bus_ok n = true -> inv_objs (add_bus s n) = true.
+Proof.
+  intros s n H Hn. apply inv_objs_split in H. apply inv_objs_split. cbn [add_bus nodes bufs buses].
+  destruct H as [A [B C]]. split; [assumption | split; [assumption | rewrite forallb_app, C; cbn [forallb]; rewrite Hn; reflexivity]].
+Qed.
+
+Lemma invO_add_node_none : forall L s, InvO L s -> InvO L (add_node s None).
+Proof.
+  intros L s [A B C D E]. constructor; auto.
+  - apply inv_objs_add_node; auto.
+  - intros n x z G Ez. destruct (get_node_add _ _ _ _ G) as [K|K]; [eauto | discriminate K].
+Qed.
+Lemma invO_add_node : forall L s z k, InvO L s -> known L KNode z -> InvO L (add_node s (Some (mkNode (PInt z) k))).
+Proof.
+  intros L s z k [A B C D E] Hz. constructor; auto.
+  - apply inv_objs_add_node; auto.
+  - intros n x z' G Ez. destruct (get_node_add _ _ _ _ G) as [K|K]; [eauto|].
+    inversion K; subst. simpl in Ez. inversion Ez; subst. exact Hz.
+Qed.
+
+Lemma invO_add_buf_none : forall L s, InvO L s -> InvO L (add_buf s None).
+Proof.
+  intros L s [A B C D E]. constructor; auto.
+  - apply inv_objs_add_buf; auto.
+  - intros b x a G Ea. destruct (get_buf_add _ _ _ _ G) as [K|K]; [eauto | discriminate K].
+Qed.
+Lemma invO_add_buf : forall L s a fr ch, InvO L s -> known L KBuf a -> ion fr = true -> ion ch = true ->
+  InvO L (add_buf s (Some (mkBuf (PInt a) fr ch))).
+Proof.
+  intros L s a fr ch [A B C D E] Ha Hf Hc. constructor; auto.
+  - apply inv_objs_add_buf; auto. cbn [buf_ok b_num b_frames b_chans ion]. rewrite Hf, Hc. reflexivity.
+  - intros b x a' G Ea. destruct (get_buf_add _ _ _ _ G) as [K|K]; [eauto|].
+    inversion K; subst. simpl in Ea. inversion Ea; subst. exact Ha.
+Qed.
+
+Lemma invO_add_bus_none : forall L s, InvO L s -> InvO L (add_bus s None).
+Proof.
+  intros L s [A B C D E]. constructor; auto.
+  - apply inv_objs_add_bus; auto.
+  - intros u x a G Ea. destruct (get_bus_add _ _ _ _ G) as [K|K]; [eauto | discriminate K].
+Qed.
+Lemma invO_add_bus : forall L s au a c, InvO L s -> 1 <= c -> (forall i, a <= i < a + c -> known L KBus i) ->
+  InvO L (add_bus s (Some (mkBus au (PInt a) (PInt c)))).
+Proof.
+  intros L s au a c [A B C D E] Hc Hr. constructor; auto.
+  - apply inv_objs_add_bus; auto.
+  - intros u x a' G Ea. destruct (get_bus_add _ _ _ _ G) as [K|K]; [eauto|].
+    inversion K; subst. simpl in Ea. inversion Ea; subst. exists c. repeat split; auto.
+Qed.
+
+Lemma invO_set_bblocks : forall L s B, InvO L s ->
+  (forall blk i, In blk B -> In i (zrange (fst blk) (Z.to_nat (snd blk))) -> known L KBuf i) ->
+  InvO L (set_bblocks s B).
+Proof. intros L s B [A N Bf U K] H. constructor; auto. Qed.
+Lemma invO_set_cblocks : forall L s B, InvO L s -> InvO L (set_cblocks s B).
+Proof. intros L s B [A N Bf U K]. constructor; auto. Qed.
+Lemma invO_set_ablocks : forall L s B, InvO L s -> InvO L (set_ablocks s B).
+Proof. intros L s B [A N Bf U K]. constructor; auto. Qed.
+
+Lemma in_blk_remove : forall a l b, In b (blk_remove a l) -> In b l.
+Proof.
+  intros a l b. induction l as [|x t IH]; simpl; [tauto|].
+  destruct (fst x =? a); simpl; [auto | intros [H|H]; auto].
+Qed.
+Lemma in_blk_insert : forall b l x, In x (blk_insert b l) -> x = b \/ In x l.
+Proof.
+  intros b l x. induction l as [|y t IH]; simpl; [intros [H|[]]; auto|].
+  destruct (fst b <? fst y); simpl; intros [H|H]; auto.
+  destruct (IH H); auto.
+Qed.
+
+Lemma nth_set_nth : forall {A} (l : list A) i j x y,
+  nth_error (set_nth l i x) j = Some y -> nth_error l j = Some y \/ y = x.
+Proof.
+  intros A l. induction l as [|z t IH]; intros i j x y H; simpl in H.
+  - destruct j; discriminate H.
+  - destruct i; destruct j; simpl in *; auto.
+    + inversion H; auto.
+    + eapply IH; eauto.
+Qed.
 Lemma forallb_set_nth : forall {A} (f : A -> bool) l i x, forallb f l = true -> f x = true -> forallb f (set_nth l i x) = true.
 Proof.
   intros A f l. induction l as [|y t IH]; intros i x H Hx; simpl; [reflexivity|].
@@ -73,290 +327,434 @@ Proof.
   destruct i; simpl; [rewrite Hx, H2 | rewrite H1, (IH _ _ H2 Hx)]; reflexivity.
 Qed.
 
-Lemma inv_objs_split : forall s, inv_objs s = true <->
-  forallb node_ok (nodes s) = true /\ forallb buf_ok (bufs s) = true /\ forallb bus_ok (buses s) = true.
-Proof. intros s. unfold inv_objs. rewrite !andb_true_iff. tauto. Qed.
-
-Lemma inv_add_node : forall s n, inv_objs s = true -> node_ok n = true -> inv_objs (add_node s n) = true.
+Lemma invO_clear_buf : forall L s b, InvO L s -> InvO L (set_buf s b (mkBuf PNone PNone PNone)).
 Proof.
-  intros s n H Hn. apply inv_objs_split in H. apply inv_objs_split. simpl.
-  destruct H as [A [B C]]. split; [rewrite forallb_app, A; simpl; rewrite Hn; reflexivity | split; assumption].
+  intros L s b [A N Bf U K]. constructor; auto.
+  - apply inv_objs_split in A. apply inv_objs_split. destruct A as [A1 [A2 A3]]. cbn [set_buf nodes bufs buses].
+    split; [assumption | split; [apply forallb_set_nth; [assumption | reflexivity] | assumption]].
+  - intros b' x a G Ea. unfold get_buf, set_buf in G. cbn [bufs] in G.
+    destruct (nth_error (set_nth (bufs s) b (Some (mkBuf PNone PNone PNone))) b') as [[y|]|] eqn:E; try discriminate G.
+    inversion G; subst. destruct (nth_set_nth _ _ _ _ _ E) as [Q|Q].
+    + eapply Bf; [unfold get_buf; rewrite Q; reflexivity | exact Ea].
+    + inversion Q; subst. discriminate Ea.
 Qed.
-Lemma inv_add_buf : forall s n, inv_objs s = true -> buf_ok n = true -> inv_objs (add_buf s n) = true.
+Lemma invO_clear_bus : forall L s u au, InvO L s -> InvO L (set_bus s u (mkBus au PNone PNone)).
 Proof.
-  intros s n H Hn. apply inv_objs_split in H. apply inv_objs_split. simpl.
-  destruct H as [A [B C]]. split; [assumption | split; [rewrite forallb_app, B; simpl; rewrite Hn; reflexivity | assumption]].
-Qed.
-Lemma inv_add_bus : forall s n, inv_objs s = true -> bus_ok n = true -> inv_objs (add_bus s n) = true.
-Proof.
-  intros s n H Hn. apply inv_objs_split in H. apply inv_objs_split. simpl.
-  destruct H as [A [B C]]. split; [assumption | split; [assumption | rewrite forallb_app, C; simpl; rewrite Hn; reflexivity]].
-Qed.
-Lemma inv_set_bblocks : forall s b, inv_objs (set_bblocks s b) = inv_objs s. Proof. reflexivity. Qed.
-Lemma inv_set_cblocks : forall s b, inv_objs (set_cblocks s b) = inv_objs s. Proof. reflexivity. Qed.
-Lemma inv_set_ablocks : forall s b, inv_objs (set_ablocks s b) = inv_objs s. Proof. reflexivity. Qed.
-Lemma inv_set_stack : forall s k, inv_objs (set_stack s k) = inv_objs s. Proof. reflexivity. Qed.
-Lemma inv_set_buf : forall s i x, inv_objs s = true -> buf_ok (Some x) = true -> inv_objs (set_buf s i x) = true.
-Proof.
-  intros s i x H Hx. apply inv_objs_split in H. apply inv_objs_split. simpl. destruct H as [A [B C]].
-  split; [assumption | split; [apply forallb_set_nth; assumption | assumption]].
-Qed.
-Lemma inv_set_bus : forall s i x, inv_objs s = true -> bus_ok (Some x) = true -> inv_objs (set_bus s i x) = true.
-Proof.
-  intros s i x H Hx. apply inv_objs_split in H. apply inv_objs_split. simpl. destruct H as [A [B C]].
-  split; [assumption | split; [assumption | apply forallb_set_nth; assumption]].
-Qed.
-Lemma inv_alloc_bufnum : forall s b a n z s1, inv_objs s = true -> alloc_bufnum s b a n = Some (z, s1) -> inv_objs s1 = true.
-Proof.
-  intros s b a n z s1 H A. unfold alloc_bufnum in A.
-  destruct b; [inversion A; subst; assumption|]. destruct a; [inversion A; subst; assumption | discriminate].
+  intros L s u au [A N Bf U K]. constructor; auto.
+  - apply inv_objs_split in A. apply inv_objs_split. destruct A as [A1 [A2 A3]]. cbn [set_bus nodes bufs buses].
+    split; [assumption | split; [assumption | apply forallb_set_nth; [assumption | reflexivity]]].
+  - intros u' x a G Ea. unfold get_bus, set_bus in G. cbn [buses] in G.
+    destruct (nth_error (set_nth (buses s) u (Some (mkBus au PNone PNone))) u') as [[y|]|] eqn:E; try discriminate G.
+    inversion G; subst. destruct (nth_set_nth _ _ _ _ _ E) as [Q|Q].
+    + eapply U; [unfold get_bus; rewrite Q; reflexivity | exact Ea].
+    + inversion Q; subst. discriminate Ea.
 Qed.
 
-Lemma node_int : forall s n x, inv_objs s = true -> get_node s n = Some x -> exists z, n_id x = PInt z.
+Lemma in_range_ids : forall k a n i, In i (zrange a n) -> In (k, i) (range_ids k a n).
+Proof. intros k a n i H. unfold range_ids. apply in_map_iff. exists i. auto. Qed.
+
+Lemma invO_alloc_bufnum : forall L s bufnum addr n z s1,
+  InvO L s -> alloc_bufnum s bufnum addr (Z.of_nat n) = Some (z, s1) ->
+  (forall i, In i (zrange z n) -> known L KBuf i) -> InvO L s1.
 Proof.
-  intros s n x H G. apply inv_objs_split in H. destruct H as [H _]. unfold get_node in G.
-  destruct (nth_error (nodes s) n) as [[y|]|] eqn:E; try discriminate. inversion G; subst.
-  pose proof (forallb_nth _ _ _ _ H E) as K. simpl in K. destruct (n_id x); try discriminate. eauto.
+  intros L s bufnum addr n z s1 H A Hr. unfold alloc_bufnum in A.
+  destruct bufnum; [inversion A; subst; exact H|]. destruct addr; [|discriminate]. inversion A; subst.
+  apply invO_set_bblocks; [exact H|]. intros blk i Hb Hi.
+  destruct (in_blk_insert _ _ _ Hb) as [E|E].
+  - subst blk. cbn [fst snd] in Hi. rewrite Nat2Z.id in Hi. apply Hr. exact Hi.
+  - destruct H as [_ _ _ _ K]. eapply K; eauto.
 Qed.
 
-Lemma buf_ion : forall s b x, inv_objs s = true -> get_buf s b = Some x ->
+Lemma alloc_bufnum_new : forall s bufnum addr n z s1,
+  alloc_bufnum s bufnum addr n = Some (z, s1) -> new_bufnum bufnum addr = Some z.
+Proof. intros s [b|] [a|] n z s1 H; simpl in *; inversion H; reflexivity. Qed.
+
+Lemma known_new_range : forall L k bufnum addr n z i,
+  new_bufnum bufnum addr = Some z -> In i (zrange z n) ->
+  known ((optrange k addr n ++ optrange k bufnum n) ++ L) k i.
+Proof.
+  intros L k bufnum addr n z i H Hi. apply known_l. apply in_or_app.
+  destruct bufnum as [b|]; simpl in H.
+  - inversion H; subst. right. apply in_range_ids. exact Hi.
+  - destruct addr as [a|]; [|discriminate]. inversion H; subst. left. apply in_range_ids. exact Hi.
+Qed.
+
+Lemma zrange_self : forall a n, (1 <= n)%nat -> In a (zrange a n).
+Proof. intros a n H. destruct n; [lia|]. left. reflexivity. Qed.
+
+(* ------------------------------------------------------------------------------------ *)
+(* argument lists whose groups carry ids                                                 *)
+
+Definition live_buf (s : st) (b : nat) : bool := match get_buf s b with Some x => is_pint (b_num x) | None => false end.
+Definition live_bus (s : st) (u : nat) : bool := match get_bus s u with Some x => is_pint (u_index x) | None => false end.
+Definition node_exists (s : st) (n : nat) : bool := match get_node s n with Some _ => true | None => false end.
+Definition chans_of (s : st) (u : nat) : Z :=
+  match get_bus s u with Some x => match u_chans x with PInt c => c | _ => 0 end | None => 0 end.
+
+Lemma node_int : forall L s n x, InvO L s -> get_node s n = Some x -> exists z, n_id x = PInt z /\ known L KNode z.
+Proof.
+  intros L s n x I G. pose proof (io_objs _ _ I) as H. apply inv_objs_split in H. destruct H as [H _].
+  unfold get_node in G. destruct (nth_error (nodes s) n) as [[y|]|] eqn:E; try discriminate. inversion G; subst.
+  pose proof (forallb_nth _ _ _ _ H E) as K. simpl in K. destruct (n_id x) eqn:Ex; try discriminate.
+  exists z. split; [reflexivity|]. eapply (io_node _ _ I n x z); [unfold get_node; rewrite E; reflexivity | exact Ex].
+Qed.
+
+Lemma buf_ions : forall L s b x, InvO L s -> get_buf s b = Some x ->
   ion (b_num x) = true /\ ion (b_frames x) = true /\ ion (b_chans x) = true.
 Proof.
-  intros s b x H G. apply inv_objs_split in H. destruct H as [_ [H _]]. unfold get_buf in G.
-  destruct (nth_error (bufs s) b) as [[y|]|] eqn:E; try discriminate. inversion G; subst.
+  intros L s b x I G. pose proof (io_objs _ _ I) as H. apply inv_objs_split in H. destruct H as [_ [H _]].
+  unfold get_buf in G. destruct (nth_error (bufs s) b) as [[y|]|] eqn:E; try discriminate. inversion G; subst.
   pose proof (forallb_nth _ _ _ _ H E) as K. simpl in K. rewrite !andb_true_iff in K. tauto.
 Qed.
 
-Lemma bus_ion : forall s u x, inv_objs s = true -> get_bus s u = Some x ->
-  ion (u_index x) = true /\ ion (u_chans x) = true.
+Lemma bus_ions : forall L s u x, InvO L s -> get_bus s u = Some x -> ion (u_index x) = true /\ ion (u_chans x) = true.
 Proof.
-  intros s u x H G. apply inv_objs_split in H. destruct H as [_ [_ H]]. unfold get_bus in G.
-  destruct (nth_error (buses s) u) as [[y|]|] eqn:E; try discriminate. inversion G; subst.
+  intros L s u x I G. pose proof (io_objs _ _ I) as H. apply inv_objs_split in H. destruct H as [_ [_ H]].
+  unfold get_bus in G. destruct (nth_error (buses s) u) as [[y|]|] eqn:E; try discriminate. inversion G; subst.
   pose proof (forallb_nth _ _ _ _ H E) as K. simpl in K. rewrite !andb_true_iff in K. tauto.
 Qed.
 
-Lemma target_int : forall s tg, inv_objs s = true -> target_ok s tg = true -> exists z, target_id s tg = PInt z.
+Lemma live_bus_spec : forall L s i, InvO L s -> live_bus s i = true ->
+  exists x a c, get_bus s i = Some x /\ u_index x = PInt a /\ u_chans x = PInt c /\ 1 <= c /\
+                busindex_of s i = PInt a /\ (forall j, a <= j < a + c -> known L KBus j).
 Proof.
-  intros s tg H T. destruct tg; simpl; eauto.
-  unfold target_ok in T. unfold node_id_of.
-  destruct (nth_error (nodes s) i) as [[y|]|] eqn:E; try discriminate.
-  apply (node_int s i y H). unfold get_node. rewrite E. reflexivity.
+  intros L s i I H. unfold live_bus in H. destruct (get_bus s i) as [x|] eqn:G; [|discriminate].
+  destruct (u_index x) eqn:Ex; try discriminate. destruct (io_bus _ _ I i x z G Ex) as [c [Ec [Hc K]]].
+  exists x, z, c. repeat split; auto. unfold busindex_of. unfold get_bus in G.
+  destruct (nth_error (buses s) i) as [[y|]|]; try discriminate. inversion G; subst. exact Ex.
 Qed.
 
-Lemma action_cases : forall act a, action_number act = Some a -> a = 0 \/ a = 1 \/ a = 2 \/ a = 3 \/ a = 4.
-Proof. intros act a H. apply action_number_range in H. lia. Qed.
-
-(* ---- the per-op obligation ---- *)
-
-Ltac use_inv Hi :=
-  repeat match goal with
-         | G : get_node ?s ?n = Some ?x |- _ =>
-           let z := fresh "z" in let E := fresh "E" in
-           destruct (node_int s n x Hi G) as [z E]; simpl in E; try rewrite E in *; clear G
-         | G : get_buf ?s ?b = Some ?x |- _ =>
-           let K := fresh "K" in pose proof (buf_ion s b x Hi G) as K; destruct K as [? [? ?]]; clear G
-         | G : get_bus ?s ?u = Some ?x |- _ =>
-           let K := fresh "K" in pose proof (bus_ion s u x Hi G) as K; destruct K as [? ?]; clear G
-         end.
-
-Ltac brk_hyp H :=
-  repeat match type of H with
-         | context [match ?x with _ => _ end] => destruct x eqn:?
-         | context [if ?x then _ else _] => destruct x eqn:?
-         end.
-
-Lemma good_b_free : forall i, good_pmsg [PStr "/b_free"; PInt i] = true.
-Proof. intros i. reflexivity. Qed.
-
-Lemma good_free_all : forall (f : Z * Z -> list Z) blks,
-  forallb good_pmsg (flat_map (fun blk => map (fun i => [PStr "/b_free"; PInt i]) (f blk)) blks) = true.
+Lemma in_lit_bus : forall l z, In (PInt z) l -> In (KBus, z) (lit_bus l).
 Proof.
-  intros f blks. apply forallb_forall. intros m Hm. apply in_flat_map in Hm. destruct Hm as [b [_ Hm]].
-  apply in_map_iff in Hm. destruct Hm as [i [Hi _]]. subst m. apply good_b_free.
+  induction l as [|a t IH]; intros z H; [contradiction|]. destruct H as [H|H].
+  - subst. left. reflexivity.
+  - destruct a; simpl; auto.
 Qed.
 
-Ltac inv_goal Hi :=
-  repeat first
-    [ assumption
-    | rewrite inv_set_bblocks | rewrite inv_set_cblocks | rewrite inv_set_ablocks
-    | apply inv_add_node | apply inv_add_buf | apply inv_add_bus | apply inv_set_buf | apply inv_set_bus
-    | match goal with A : alloc_bufnum _ _ _ _ = Some (_, ?s1) |- inv_objs ?s1 = true => exact (inv_alloc_bufnum _ _ _ _ _ _ Hi A) end
-    | reflexivity ].
-
-Ltac ints :=
-  repeat match goal with
-         | K : ion ?v = true |- _ => destruct v; try discriminate K; clear K
-         | K : is_pint ?v = true |- _ => destruct v; try discriminate K; clear K
-         end.
-
-(* wire_msg, compositionally *)
-Fixpoint wire_args (l : list pval) : option (list arg) :=
-  match l with
-  | [] => Some []
-  | x :: t => match wire_arg x, wire_args t with Some a, Some b => Some (a ++ b) | _, _ => None end
+Fixpoint mapargs_ok (s : st) (args : list pval) : bool :=
+  match args with
+  | [] => true
+  | c :: b :: t => ctl_ok c && (match b with PInt _ => true | PBus i => live_bus s i | _ => false end) && mapargs_ok s t
+  | _ => false
   end.
 
-Lemma wire_msg_eq : forall a l,
-  wire_msg (PStr a :: l) = match wire_args l with Some args => Some (a, args) | None => None end.
+Lemma lit_bus_tail2 : forall a b t x, In x (lit_bus t) -> In x (lit_bus (a :: b :: t)).
+Proof. intros a b t x H. destruct a; destruct b; simpl; auto. Qed.
+
+Lemma map_groups : forall L s, InvO L s ->
+  forall k args, (List.length args <= k)%nat -> mapargs_ok s args = true ->
+  exists ids, forallb w_tok (map (aci s) args) = true /\
+              Groups [TCtl; TBusM] (map wtok (map (aci s) args)) ids /\
+              (forall kk z, In (kk, z) ids -> known (lit_bus args ++ L) kk z).
 Proof.
-  intros a l. unfold wire_msg. cbn [wire_arg].
-  change ((fix go (l0 : list pval) : option (list arg) :=
-             match l0 with
-             | [] => Some []
-             | x :: t => match wire_arg x, go t with Some a', Some b' => Some (a' ++ b') | _, _ => None end
-             end) l) with (wire_args l).
-  destruct (wire_args l); reflexivity.
+  intros L s I. induction k as [|k IH]; intros args Hl H.
+  - destruct args; [|simpl in Hl; lia]. exists []. repeat split; [constructor | intros kk z []].
+  - destruct args as [|c [|b t]]; try discriminate H.
+    + exists []. repeat split; [constructor | intros kk z []].
+    + cbn [mapargs_ok] in H. apply andb_true_iff in H. destruct H as [H Ht]. apply andb_true_iff in H. destruct H as [Hc Hb].
+      destruct (IH t ltac:(simpl in Hl; lia) Ht) as [it [Tt [Gt Kt]]].
+      destruct (ctl_ok_spec false s c Hc) as [_ [Ac Wc]].
+      assert (B : exists z, aci s b = PInt z /\ known (lit_bus (c :: b :: t) ++ L) KBus z).
+      { destruct b; try discriminate Hb.
+        - exists z. split; [reflexivity|]. apply known_l. apply in_lit_bus. right. left. reflexivity.
+        - destruct (live_bus_spec L s i I Hb) as [x [a [cc [G [Ei [Ec [Hcc [Eb K]]]]]]]].
+          exists a. split; [exact Eb|]. apply known_r. apply K. lia. }
+      destruct B as [z [Eb Kz]].
+      exists ([(KBus, z)] ++ it). cbn [map]. rewrite Ac, Eb. split; [|split].
+      * cbn [forallb]. rewrite (ctl_is_tok c Wc), Tt. reflexivity.
+      * change (wtok c :: wtok (PInt z) :: map wtok (map (aci s) t)) with ([wtok c; AInt z] ++ map wtok (map (aci s) t)).
+        constructor; [discriminate | | exact Gt].
+        intros r. cbn [app eat_seq]. rewrite (eat_ctl_tok c _ Wc). reflexivity.
+      * intros kk z' Hi. destruct Hi as [Hi|Hi]; [inversion Hi; subst; exact Kz|].
+        destruct (Kt kk z' Hi) as [A|[A|A]]; [left; exact A | right; left; exact A | right; right].
+        apply in_app_or in A. apply in_or_app. destruct A as [A|A]; [left; apply lit_bus_tail2; exact A | right; exact A].
 Qed.
 
-Lemma plain_eqs : forall x, plain x = true -> String.eqb x "[" = false /\ String.eqb x "]" = false.
-Proof. intros x H. unfold plain in H. apply andb_true_iff in H. rewrite !negb_true_iff in H. exact H. Qed.
-
-Ltac good :=
-  cbn [forallb flat_map send_msgs app]; unfold good_pmsg; rewrite ?wire_msg_eq;
-  cbn [wire_args wire_arg];
-  repeat match goal with P : plain ?x = true |- _ =>
-           let A := fresh in let B := fresh in destruct (plain_eqs x P) as [A B]; rewrite ?A, ?B; clear P
-         end;
-  reflexivity.
-
-Ltac brk_eqs :=
-  repeat match goal with
-         | Hq : context [match ?x with _ => _ end] |- _ => destruct x eqn:?; try discriminate Hq
-         | Hq : context [if ?x then _ else _] |- _ => destruct x eqn:?; try discriminate Hq
-         end;
-  repeat match goal with Hq : Some _ = Some _ |- _ => inversion Hq; subst; clear Hq end.
-
-Ltac msg_goal Hi :=
-  try match goal with T : negb (target_ok ?s ?tg) = false |- _ =>
-        let z := fresh "tz" in let E := fresh "TE" in
-        apply negb_false_iff in T; destruct (target_int s tg Hi T) as [z E]; rewrite E in *; clear T
-      end;
-  try match goal with A : action_number ?act = Some ?a |- _ =>
-        destruct (action_cases act a A) as [?|[?|[?|[?|?]]]]; subst a; clear A
-      end;
-  use_inv Hi; ints;
-  unfold s_new_msg, args_or_empty, oal, pargroup_creation_cmd, group_creation_cmd, py_int, compl_val in *;
-  brk_eqs;
-  try (simpl in *; congruence);
-  repeat match goal with b : bool |- _ => destruct b end;
-  try good.
-
-Lemma obj_conform : forall s o s1 sends e,
-  inv_objs s = true -> fixed_shape o = true -> obj_step repaired s o = (s1, sends, e) ->
-  inv_objs s1 = true /\ forallb good_pmsg (flat_map send_msgs sends) = true.
+Lemma mapn_groups : forall L s, InvO L s ->
+  forall k args, (List.length args <= k)%nat -> mapargs_ok s args = true ->
+  exists data ids, mapn_data s (clumps2 args) = Some data /\ forallb w_tok data = true /\
+                   Groups [TCtl; TBusM; TInt] (map wtok data) ids /\
+                   (forall kk z, In (kk, z) ids -> known (lit_bus args ++ L) kk z) /\
+                   (args <> [] -> data <> []).
 Proof.
-  intros s o s1 sends e Hi Hf H.
-  destruct o; try discriminate Hf.
-  all: cbn [fixed_shape] in Hf.
-  (* OBufSimple: the command is one of the two *)
-  all: try match type of Hf with
-           | ((String.eqb ?cmd _ || _) && _) = true =>
-             apply andb_true_iff in Hf; destruct Hf as [Hc Hf]; apply orb_true_iff in Hc;
-             destruct Hc as [Hc|Hc]; apply String.eqb_eq in Hc; subst cmd
-           end.
-  all: repeat match goal with
-              | Q : (_ && _) = true |- _ => let P := fresh "P" in apply andb_true_iff in Q; destruct Q as [P Q]
-              end.
-  all: unfold no_compl, ion, is_num in *.
-  all: repeat match goal with
-              | Q : context [match ?x with _ => _ end] |- _ =>
-                lazymatch type of Q with _ = true => destruct x; try discriminate Q end
-              end.
-  all: unfold obj_step, ok, fail in H.
-  all: brk_hyp H; inversion H; subst; clear H;
-    (split; [ try solve [inv_goal Hi | use_inv Hi; inv_goal Hi; simpl; ints; reflexivity] | try reflexivity ]).
-  all: try solve [msg_goal Hi].
-  all: try (cbn [flat_map send_msgs]; rewrite app_nil_r; apply good_free_all).
+  intros L s I. induction k as [|k IH]; intros args Hl H.
+  - destruct args; [|simpl in Hl; lia]. exists [], []. repeat split; [constructor | intros kk z [] | intros C; contradiction C; reflexivity].
+  - destruct args as [|c [|b t]]; try discriminate H.
+    + exists [], []. repeat split; [constructor | intros kk z [] | intros C; contradiction C; reflexivity].
+    + cbn [mapargs_ok] in H. apply andb_true_iff in H. destruct H as [H Ht]. apply andb_true_iff in H. destruct H as [Hc Hb].
+      destruct (IH t ltac:(simpl in Hl; lia) Ht) as [dt [it [Et [Tt [Gt [Kt _]]]]]].
+      destruct (ctl_ok_spec false s c Hc) as [_ [Ac Wc]].
+      assert (B : exists z n, mapn_item s (c, b) = Some [c; PInt z; PInt n] /\ known (lit_bus (c :: b :: t) ++ L) KBus z).
+      { unfold mapn_item. cbn [fst snd]. rewrite Ac. destruct b; try discriminate Hb.
+        - exists z, 1. split; [reflexivity|]. apply known_l. apply in_lit_bus. right. left. reflexivity.
+        - destruct (live_bus_spec L s i I Hb) as [x [a [cc [G [Ei [Ec [Hcc [Eb K]]]]]]]].
+          exists a, cc. rewrite G, Ei, Ec. split; [reflexivity|]. apply known_r. apply K. lia. }
+      destruct B as [z [n [Ei Kz]]].
+      exists ([c; PInt z; PInt n] ++ dt), ([(KBus, z)] ++ it). cbn [clumps2 mapn_data]. rewrite Ei, Et.
+      split; [reflexivity | split; [|split; [|split]]].
+      * cbn [app forallb]. rewrite (ctl_is_tok c Wc), Tt. reflexivity.
+      * rewrite map_app. constructor; [discriminate | | exact Gt].
+        intros r. cbn [map app eat_seq]. rewrite (eat_ctl_tok c _ Wc). reflexivity.
+      * intros kk z' Hi. destruct Hi as [Hi|Hi]; [inversion Hi; subst; exact Kz|].
+        destruct (Kt kk z' Hi) as [A|[A|A]]; [left; exact A | right; left; exact A | right; right].
+        apply in_app_or in A. apply in_or_app. destruct A as [A|A]; [left; apply lit_bus_tail2; exact A | right; exact A].
+      * intros _. discriminate.
 Qed.
 
-(* ---- routing keeps the invariant and only lets conforming messages through ---- *)
+Lemma eat_bus_int : forall z r, eat TBus (AInt z :: r) = Some ([(KBus, z)], r).
+Proof. reflexivity. Qed.
 
-Lemma good_wire_msgs : forall ms, forallb good_pmsg ms = true ->
-  exists ws, wire_msgs ms = Some ws /\ forallb conforms ws = true.
+(* /c_set: index+k value ... *)
+Lemma bus_pairs_groups : forall a vs k, forallb w_num vs = true ->
+  exists ids, forallb w_tok (bus_pairs a k vs) = true /\
+              Groups [TBus; TNum] (map wtok (bus_pairs a k vs)) ids /\
+              (forall kk z, In (kk, z) ids -> kk = KBus /\ a + k <= z < a + k + Z.of_nat (List.length vs)).
 Proof.
-  induction ms as [|m t IH]; intros H; simpl in *.
-  - exists []. split; reflexivity.
-  - apply andb_true_iff in H. destruct H as [Hm Ht]. destruct (IH Ht) as [ws [E C]].
-    unfold good_pmsg in Hm. destruct (wire_msg m) as [w|] eqn:W; [|discriminate].
-    exists (w :: ws). rewrite E. split; [reflexivity|]. simpl. rewrite Hm, C. reflexivity.
+  intros a vs. induction vs as [|v t IH]; intros k H.
+  - exists []. repeat split; try constructor; destruct H0.
+  - cbn [forallb] in H. apply andb_true_iff in H. destruct H as [Hv Ht].
+    destruct (IH (k + 1) Ht) as [it [Tt [Gt Kt]]].
+    exists ([(KBus, a + k)] ++ it). cbn [bus_pairs]. rewrite (flat_num v Hv). split; [|split].
+    + cbn [app forallb]. rewrite (num_is_tok v Hv), Tt. reflexivity.
+    + change (PInt (a + k) :: [v] ++ bus_pairs a (k + 1) t) with ([PInt (a + k); v] ++ bus_pairs a (k + 1) t).
+      rewrite map_app. constructor; [discriminate | | exact Gt].
+      intros r. cbn [map app eat_seq]. change (wtok (PInt (a + k))) with (AInt (a + k)).
+      rewrite eat_bus_int, (eat_num_tok v _ Hv). reflexivity.
+    + intros kk z Hi. cbn [List.length]. destruct Hi as [Hi|Hi].
+      * inversion Hi; subst. split; [reflexivity | lia].
+      * destruct (Kt kk z Hi) as [A B]. split; [exact A | lia].
 Qed.
 
-Lemma route_conform : forall sends stk,
-  forallb (forallb good_pmsg) stk = true -> forallb good_pmsg (flat_map send_msgs sends) = true ->
-  forallb (forallb good_pmsg) (fst (fst (route stk sends))) = true /\ all_conform (snd (fst (route stk sends))) = true.
+(* ControlBus.set_pairs: (offset, value) pairs *)
+Fixpoint pairs_ok (c : Z) (l : list pval) : bool :=
+  match l with
+  | [] => true
+  | PInt i :: v :: t => (0 <=? i) && (i <? c) && w_num v && pairs_ok c t
+  | _ => false
+  end.
+
+Lemma pairs_groups : forall a c k l, (List.length l <= k)%nat -> pairs_ok c l = true ->
+  exists data ids, pairs_data a (clumps2 l) = Some data /\ forallb w_tok data = true /\
+                   Groups [TBus; TNum] (map wtok data) ids /\
+                   (forall kk z, In (kk, z) ids -> kk = KBus /\ a <= z < a + c) /\ (l <> [] -> data <> []).
 Proof.
-  induction sends as [|x t IH]; intros stk Hs Hg.
-  - simpl. split; [exact Hs | reflexivity].
-  - cbn [flat_map] in Hg. rewrite forallb_app in Hg. apply andb_true_iff in Hg. destruct Hg as [Hx Ht].
-    destruct stk as [|top rest].
-    + destruct x as [m|tm ms]; cbn [route].
-      * simpl in Hx. rewrite andb_true_r in Hx. unfold good_pmsg in Hx.
-        destruct (wire_msg m) as [w|]; [|discriminate].
-        specialize (IH [] Hs Ht). destruct (route [] t) as [[stk' evs] e]. simpl in *.
-        destruct IH as [I1 I2]. split; [exact I1|]. unfold all_conform in *. simpl. rewrite Hx, I2. reflexivity.
-      * simpl in Hx. destruct (good_wire_msgs ms Hx) as [ws [E C]]. rewrite E.
-        specialize (IH [] Hs Ht). destruct (route [] t) as [[stk' evs] e]. simpl in *.
-        destruct IH as [I1 I2]. split; [exact I1|]. unfold all_conform in *. simpl. rewrite C, I2. reflexivity.
-    + cbn [route]. apply IH; [|exact Ht].
-      simpl in Hs. apply andb_true_iff in Hs. destruct Hs as [H1 H2]. simpl.
-      rewrite forallb_app, H1, Hx, H2. reflexivity.
+  intros a c. induction k as [|k IH]; intros l Hl H.
+  - destruct l; [|simpl in Hl; lia]. exists [], []. repeat split; try constructor; try destruct H0. intros C; contradiction C; reflexivity.
+  - destruct l as [|p [|v t]]; try (destruct p; discriminate H).
+    + exists [], []. repeat split; try constructor; try destruct H0. intros C; contradiction C; reflexivity.
+    + destruct p; try discriminate H. cbn [pairs_ok] in H.
+      apply andb_true_iff in H. destruct H as [H Ht]. apply andb_true_iff in H. destruct H as [H Hv].
+      apply andb_true_iff in H. destruct H as [H0 H1]. apply Z.leb_le in H0. apply Z.ltb_lt in H1.
+      destruct (IH t ltac:(simpl in Hl; lia) Ht) as [dt [it [Et [Tt [Gt [Kt _]]]]]].
+      exists ([PInt (z + a); v] ++ dt), ([(KBus, z + a)] ++ it). cbn [clumps2 pairs_data padd]. rewrite Et, (flat_num v Hv).
+      split; [reflexivity | split; [|split; [|split]]].
+      * cbn [app forallb]. rewrite (num_is_tok v Hv), Tt. reflexivity.
+      * rewrite map_app. constructor; [discriminate | | exact Gt].
+        intros r. cbn [map app eat_seq]. change (wtok (PInt (z + a))) with (AInt (z + a)).
+        rewrite eat_bus_int, (eat_num_tok v _ Hv). reflexivity.
+      * intros kk z' Hi. destruct Hi as [Hi|Hi]; [inversion Hi; subst; split; [reflexivity | lia] | apply Kt; exact Hi].
+      * intros _. discriminate.
 Qed.
 
-Lemma forallb_drop_n : forall {A} (f : A -> bool) k l, forallb f l = true -> forallb f (drop_n k l) = true.
+(* Server.reorder: the ids of existing nodes *)
+Lemma node_ids_groups : forall L s ns, InvO L s -> forallb (node_exists s) ns = true ->
+  exists data ids, node_ids_of s ns = Some data /\ forallb w_tok data = true /\
+                   Groups [TNode] (map wtok data) ids /\ (forall kk z, In (kk, z) ids -> known L kk z) /\
+                   (ns <> [] -> data <> []).
 Proof.
-  intros A f k. induction k as [|k IH]; intros l H; simpl; [exact H|].
-  destruct l; [reflexivity|]. simpl in H. apply andb_true_iff in H. apply IH. tauto.
+  intros L s ns I. induction ns as [|n t IH]; intros H.
+  - exists [], []. repeat split; try constructor; try destruct H0. intros C; contradiction C; reflexivity.
+  - cbn [forallb] in H. apply andb_true_iff in H. destruct H as [Hn Ht].
+    destruct (IH Ht) as [dt [it [Et [Tt [Gt [Kt _]]]]]].
+    unfold node_exists in Hn. destruct (get_node s n) as [x|] eqn:G; [|discriminate].
+    destruct (node_int L s n x I G) as [z [Ez Kz]].
+    exists ([PInt z] ++ dt), ([(KNode, z)] ++ it). cbn [node_ids_of]. rewrite G, Et, Ez.
+    split; [reflexivity | split; [|split; [|split]]].
+    + cbn [app forallb]. rewrite Tt. reflexivity.
+    + rewrite map_app. constructor; [discriminate | | exact Gt]. intros r. reflexivity.
+    + intros kk z' Hi. destruct Hi as [Hi|Hi]; [inversion Hi; subst; exact Kz | apply Kt; exact Hi].
+    + intros _. discriminate.
 Qed.
 
-Lemma step_conform : forall s o,
-  inv s -> fixed_shape o = true ->
-  inv (fst (fst (step repaired s o))) /\ all_conform (snd (fst (step repaired s o))) = true.
+(* ------------------------------------------------------------------------------------ *)
+(* the domain: what a call must look like for the library to owe a conforming message    *)
+
+Definition raw_good (m : pmsg) : bool :=
+  match wire_msg m with Some w => conforms w | None => false end.
+
+Definition is_load_cmd (c : string) : bool := String.eqb c "/d_load" || String.eqb c "/d_loadDir".
+Definition is_simple_cmd (c : string) : bool := String.eqb c "/b_zero" || String.eqb c "/b_close".
+
+Definition new_compl_good (c : compl) (bufnum addr : option Z) : bool :=
+  match new_bufnum bufnum addr with Some num => compl_good c (PInt num) | None => true end.
+
+(* n bounds the nesting depth of list values *)
+Definition wf_op (n : nat) (s : st) (o : op) : bool :=
+  match o with
+  | OSynth _ _ def args _ _ => plain def && sargs_ok n args
+  | OGroup _ _ _ _ => true
+  | OBasicNew _ => true
+  | ONodeSet _ args => set_ok n args && nonempty args
+  | ONodeSetn _ args => setn_ok w_ctl (map (aci s) args) && nonempty args
+  | ONodeMap _ _ args => mapargs_ok s args && nonempty args
+  | ONodeMapn _ _ args => mapargs_ok s args && nonempty args
+  | ONodeFill _ args =>
+    match args with
+    | c :: k :: v :: more => chunks_ok (S (S (S (List.length more)))) [TCtl; TInt; TNum] (c :: k :: v :: map (aci s) more)
+    | _ => false
+    end
+  | ONodeRelease _ _ => true
+  | ONodeRun _ (PBool _) => true
+  | ONodeFree _ _ | ONodeTrace _ | ONodeQuery _ => true
+  | ONodeMoveBefore _ _ | ONodeMoveAfter _ _ | ONodeMoveToHead _ _ | ONodeMoveToTail _ _ => true
+  | OGroupFreeAll _ | OGroupDeepFree _ | OGroupDumpTree _ _ => true
+  | OReorder ns _ _ => forallb (node_exists s) ns && nonempty ns
+  | OFreeDefaultGroup | OSendDefaultGroups | ODumpOsc _ => true
+  | ODefSend _ c => compl_good c PNone
+  | ODefLoad cmd path c => is_load_cmd cmd && plain path && compl_good c PNone
+  | OBufNew addr fr ch bufnum c _ => ion fr && ion ch && new_compl_good c bufnum addr
+  | OBufConsecutive addr k fr ch bufnum c =>
+    ion fr && ion ch &&
+    match new_bufnum bufnum addr with
+    | Some base => forallb (fun i => compl_good c (PInt i)) (zrange base k)
+    | None => true
+    end
+  | OBufNewRead _ path _ _ _ _ => plain path
+  | OBufNewCue addr path _ _ ch bufnum c => plain path && ion ch && new_compl_good c bufnum addr
+  | OBufAlloc b c => live_buf s b && compl_good c (bufnum_of s b)
+  | OBufAllocRead b path _ _ _ c => live_buf s b && plain path && compl_good c (bufnum_of s b)
+  | OBufRead b path _ _ _ _ _ => live_buf s b && plain path
+  | OBufCue b path _ c => live_buf s b && plain path && compl_good c (bufnum_of s b)
+  | OBufWrite b path header sample _ _ _ c =>
+    plain path && plain header && plain sample && compl_good c (bufnum_of s b)
+  | OBufSimple cmd b c => is_simple_cmd cmd && compl_good c (bufnum_of s b)
+  | OBufFree b c => compl_good c (bufnum_of s b)
+  | OBufFreeAll => true
+  | OBufFill _ start frames values =>
+    match py_int frames with
+    | Some f => chunks_ok (S (S (List.length values))) [TInt; TInt; TNum] (start :: f :: values)
+    | None => true
+    end
+  | OBufSet _ args => chunks_ok (List.length args) [TInt; TNum] args && nonempty args
+  | OBufSetn _ args => setn_ok w_int args && nonempty args
+  | OBufQuery b checked => checked || live_buf s b
+  | OBufGet _ _ | OBufGetn _ _ _ => true
+  | OBufGen _ cmd args _ _ _ => plain cmd && chunks_ok (List.length args) [TNumStr] args
+  | OBufNormalize _ newmax _ => w_numstr newmax
+  | OBufCopyData _ dst _ _ _ => live_buf s dst
+  | OBusNew _ _ chans _ => 1 <=? chans
+  | OBusFree _ | OBusClear _ | OBusGet _ | OBusGetn _ _ => true
+  | OBusSet u off values =>
+    forallb w_num values && nonempty values && (0 <=? off) && (off + Z.of_nat (List.length values) <=? chans_of s u)
+  | OBusSetn u off values => forallb w_num values && (0 <=? off) && (off <? chans_of s u)
+  | OBusSetPairs u pairs => pairs_ok (chans_of s u) pairs && nonempty pairs
+  | OBusFill _ v (PInt _) => w_num v
+  | ORaw m => raw_good m
+  | OBindEnter | OBindExit | OBindRaise _ => true
+  | _ => false
+  end.
+
+(* ------------------------------------------------------------------------------------ *)
+(* per-op obligation                                                                     *)
+
+Lemma bufnum_of_get : forall s b x, get_buf s b = Some x -> bufnum_of s b = b_num x.
 Proof.
-  intros s o Hinv Hf. unfold inv, inv_b in *. apply andb_true_iff in Hinv. destruct Hinv as [Hi Hk].
-  destruct (nonbind o) eqn:Hn.
-  - destruct (obj_step repaired s o) as [[s1 sends] e] eqn:E.
-    destruct (obj_conform _ _ _ _ _ Hi Hf E) as [Hi1 Hg].
-    pose proof (obj_step_stack _ _ _ _ _ _ E) as Hst.
-    assert (Hstep : step repaired s o =
-                    (let '(stk, evs, e2) := route (stack s1) sends in
-                     (set_stack s1 stk, evs, match e with Some _ => e | None => e2 end))).
-    { destruct o; try discriminate Hn; unfold step; rewrite E; reflexivity. }
-    rewrite Hstep. rewrite Hst.
-    destruct (route_conform sends (stack s) Hk Hg) as [R1 R2].
-    destruct (route (stack s) sends) as [[stk evs] e2]. simpl in *.
-    split; [|exact R2]. rewrite inv_set_stack, Hi1. simpl. exact R1.
-  - destruct o; try discriminate Hn; unfold step.
-    + simpl. split; [|reflexivity]. rewrite inv_set_stack, Hi. simpl. exact Hk.
-    + destruct (stack s) as [|top rest] eqn:S.
-      * simpl. rewrite Hi, S. split; reflexivity.
-      * simpl in Hk. apply andb_true_iff in Hk. destruct Hk as [K1 K2].
-        assert (Hg : forallb good_pmsg (flat_map send_msgs (flush top)) = true).
-        { unfold flush. destruct top; [reflexivity|]. cbn [flat_map send_msgs]. rewrite app_nil_r. exact K1. }
-        destruct (route_conform (flush top) rest K2 Hg) as [R1 R2].
-        destruct (route rest (flush top)) as [[stk evs] e2]. simpl in *.
-        split; [|exact R2]. rewrite inv_set_stack, Hi. simpl. exact R1.
-    + simpl. split; [|reflexivity]. rewrite inv_set_stack, Hi. simpl. apply forallb_drop_n. exact Hk.
+  intros s b x G. unfold bufnum_of. unfold get_buf in G.
+  destruct (nth_error (bufs s) b) as [[y|]|]; try discriminate. inversion G; subst. reflexivity.
 Qed.
 
-Lemma run_conform : forall ops s,
-  inv s -> forallb fixed_shape ops = true ->
-  Forall (fun st => all_conform (fst st) = true) (fst (run repaired s ops)).
+Lemma target_known : forall L s tg, InvO L s -> target_ok s tg = true ->
+  exists z, target_id s tg = PInt z /\ known (tg_ids tg ++ L) KNode z.
 Proof.
-  induction ops as [|o t IH]; intros s Hi Hf.
-  - constructor.
-  - simpl in Hf. apply andb_true_iff in Hf. destruct Hf as [Ho Ht].
-    destruct (step_conform s o Hi Ho) as [I1 C1].
-    rewrite run_cons. destruct (step repaired s o) as [[s1 evs] e]. simpl in I1, C1.
-    specialize (IH s1 I1 Ht). destruct (run repaired s1 t) as [r s2]. simpl in *.
-    constructor; [exact C1 | exact IH].
+  intros L s tg I T. destruct tg; cbn [target_id tg_ids app].
+  - exists default_group. split; [reflexivity|]. right. left. auto.
+  - exists default_group. split; [reflexivity|]. right. left. auto.
+  - exists 0. split; [reflexivity|]. right. left. auto.
+  - unfold target_ok in T. unfold node_id_of.
+    destruct (nth_error (nodes s) i) as [[y|]|] eqn:E; try discriminate.
+    destruct (node_int L s i y I) as [z [Ez Kz]]; [unfold get_node; rewrite E; reflexivity|].
+    exists z. split; assumption.
+  - exists z. split; [reflexivity|]. right. right. left. reflexivity.
 Qed.
 
-(* the code as found: Buffer.cue puts the frame count where leaveOpen (0/1) belongs *)
-Lemma cue_as_found_does_not_conform : exists ops,
-  forallb fixed_shape ops = true /\
-  ~ Forall (fun st => all_conform (fst st) = true) (fst (run as_found st0 ops)).
+Lemma good_cmd_compl : forall L a (F : list pval) c num sg iF,
+  sig_of a = Some sg -> s_rep sg = RNone -> s_compl sg = true ->
+  forallb w_tok F = true ->
+  (forall y, eat_seq (s_fixed sg) (map wtok F ++ [y]) = Some (iF, [y])) ->
+  compl_good c num = true ->
+  (forall k i, In (k, i) iF -> known L k i) -> (forall k i, In (k, i) (compl_ids c num) -> known L k i) ->
+  Good L (PStr a :: F ++ [compl_val c num]).
 Proof.
-  exists [OBufNew (Some 0) (PInt 32768) (PInt 2) None CNone true; OBufCue 0 "/tmp/a.wav" 100 CNone].
-  split; [reflexivity|]. intros H. inversion H as [|x l H1 H2]; subst. inversion H2 as [|y l' H3 H4]; subst.
-  vm_compute in H3. discriminate.
+  intros L a F c num sg iF S R C T E Hc K1 K2.
+  destruct (compl_good_spec c num Hc) as [x [Wx [Ox [Cx Ix]]]].
+  eapply good_compl_gen; eauto. rewrite Ix. exact K2.
+Qed.
+
+Lemma good_cmd_compl_ints : forall L a (F : list pval) ch c num sg iF,
+  sig_of a = Some sg -> s_rep sg = RGroup [TInt] false -> s_compl sg = true ->
+  forallb w_tok F = true ->
+  (forall R, eat_seq (s_fixed sg) (map wtok F ++ R) = Some (iF, R)) ->
+  compl_good c num = true ->
+  (forall k i, In (k, i) iF -> known L k i) -> (forall k i, In (k, i) (compl_ids c num) -> known L k i) ->
+  Good L (PStr a :: F ++ zs ch ++ [compl_val c num]).
+Proof.
+  intros L a F ch c num sg iF S R C T E Hc K1 K2.
+  destruct (compl_good_spec c num Hc) as [x [Wx [Ox [Cx Ix]]]].
+  eapply good_compl_ints; eauto. rewrite Ix. exact K2.
+Qed.
+
+(* fixed fields then groups, no completion *)
+Lemma good_groups : forall L a (F R : list pval) sg g m iF wr ids,
+  sig_of a = Some sg -> s_rep sg = RGroup g m -> s_compl sg = false ->
+  forallb w_tok F = true ->
+  (forall Y, eat_seq (s_fixed sg) (map wtok F ++ Y) = Some (iF, Y)) ->
+  wire_args R = Some wr -> Groups g wr ids -> (m = false \/ wr <> []) -> forallb not_msg wr = true ->
+  (forall k i, In (k, i) iF -> known L k i) -> (forall k i, In (k, i) ids -> known L k i) ->
+  Good L (PStr a :: F ++ R).
+Proof.
+  intros L a F R sg g m iF wr ids S Rp C T E W G M N K1 K2.
+  eapply (good_flat L a (F ++ R) (map wtok F ++ wr) sg (iF ++ ids)).
+  - apply wire_args_app; [apply wire_toks; exact T | exact W].
+  - exact S.
+  - apply shape_plain; [apply E|]. rewrite Rp. apply rep_group; assumption.
+  - rewrite forallb_app, toks_not_msg, N. reflexivity.
+  - intros k i Hi. apply in_app_or in Hi. destruct Hi; auto.
+Qed.
+
+Lemma good_cgroups : forall L a (F R : list pval) sg kt vt iF wr ids,
+  sig_of a = Some sg -> s_rep sg = RCounted kt vt -> s_compl sg = false ->
+  forallb w_tok F = true ->
+  (forall Y, eat_seq (s_fixed sg) (map wtok F ++ Y) = Some (iF, Y)) ->
+  wire_args R = Some wr -> CGroups kt vt wr ids -> wr <> [] -> forallb not_msg wr = true ->
+  (forall k i, In (k, i) iF -> known L k i) -> (forall k i, In (k, i) ids -> known L k i) ->
+  Good L (PStr a :: F ++ R).
+Proof.
+  intros L a F R sg kt vt iF wr ids S Rp C T E W G M N K1 K2.
+  eapply (good_flat L a (F ++ R) (map wtok F ++ wr) sg (iF ++ ids)).
+  - apply wire_args_app; [apply wire_toks; exact T | exact W].
+  - exact S.
+  - apply shape_plain; [apply E|]. rewrite Rp. apply rep_counted; assumption.
+  - rewrite forallb_app, toks_not_msg, N. reflexivity.
+  - intros k i Hi. apply in_app_or in Hi. destruct Hi; auto.
+Qed.
+
+Lemma toks_wire_nonempty : forall l, l <> [] -> map wtok l <> [].
+Proof. intros l H. destruct l; [contradiction H; reflexivity | discriminate]. Qed.
+
+Lemma nonempty_ne : forall {A} (l : list A), nonempty l = true -> l <> [].
+Proof. intros A l H. destruct l; [discriminate | discriminate]. Qed.
+
+Lemma wire_arg_single : forall p a, wire_arg p = Some a -> exists x, a = [x].
+Proof.
+  intros p a H. destruct p; cbn [wire_arg] in H; try discriminate H; try (inversion H; eauto; fail).
+  - destruct (String.eqb s "["); [inversion H; eauto|]. destruct (String.eqb s "]"); inversion H; eauto.
+  - destruct l as [|q t]; [inversion H; eauto|]. destruct q; try discriminate H.
+    match type of H with match ?X with _ => _ end = _ => destruct X end; [inversion H; eauto | discriminate].
+Qed.
+
+Lemma wire_args_nonempty : forall l ws, wire_args l = Some ws -> l <> [] -> ws <> [].
+Proof.
+  intros l ws H Hn. destruct l as [|p t]; [contradiction Hn; reflexivity|]. cbn [wire_args] in H.
+  destruct (wire_arg p) as [a|] eqn:E; [|discriminate]. destruct (wire_args t); [|discriminate].
+  destruct (wire_arg_single p a E) as [x Ex]. subst. inversion H. discriminate.
 Qed.
